@@ -376,3 +376,23 @@ Proof.
   - exact (IH _ _ _ Ha).
   - now injection Ha as _ _ <-.
 Qed.
+
+(* -- provenance, constructively: the recorded decisions are the decisions of ONE session of the
+      request's policy fed with the history of failed attempts (error, idempotence, consistency of
+      that attempt), in order ------------------------------------------------------------------- *)
+Lemma Exec_decisions idem (plan : list N) s cl last outs tr r :
+  Exec decide idem plan s cl last outs tr r ->
+  attempt_decisions tr = decide_history s (attempt_infos idem tr).
+Proof.
+  induction 1 as [ s cl last outs | t rest s cl last | t rest s cl last outs tr r H IH
+                 | t rest s cl last outs | t rest s cl last e outs s' nc tr r E H IH
+                 | t rest s cl last e outs s' nc tr r E H IH
+                 | t rest s cl last e outs s' E | t rest s cl last e outs s' E ];
+    cbn [attempt_decisions attempt_infos decide_history]; try reflexivity; try assumption;
+    rewrite E; try (now rewrite IH); reflexivity.
+Qed.
+
+Lemma fiber_decisions p idem cl0 plan outs tr r :
+  fiber p idem cl0 plan outs = (tr, r) ->
+  attempt_decisions tr = decide_history (new_session p) (attempt_infos idem tr).
+Proof. intros H. apply fiber_Exec in H. exact (Exec_decisions _ _ _ _ _ _ _ _ H). Qed.
